@@ -51,7 +51,7 @@ func (dw *defaultWalkerPipeline) worker(ctx context.Context, wg *sync.WaitGroup,
 			}
 			if err := dw.walkNode(root, callback); err != nil {
 				verifPoint("walk.err")
-				errc <- err
+				sendErr(ctx, errc, err)
 			}
 		}
 	}
